@@ -71,3 +71,41 @@ R.contract(
     },
     prop=["C08"],
 )
+
+# CUBIC: only the loss callback (window floor) is under contract; on_packet_acked uses cube roots.
+R.field_types(
+    "CubicCongestionControl",
+    bytes_in_flight="int",
+    congestion_window="int",
+    ssthresh="Optional[int]",
+    _max_datagram_size="int",
+    _congestion_recovery_start_time="float",
+    _W_max="Optional[int]",
+    _starting_congestion_avoidance="bool",
+)
+R.contract(
+    "CubicCongestionControl.on_packets_lost",
+    params={"packets": "list[QuicSentPacket]"},
+    use_invariant=False,
+    requires=[
+        "self._max_datagram_size > 0",
+        "self.congestion_window >= 2 * self._max_datagram_size",
+        "forall(lambda k: implies(0 <= k < len(packets), packets[k].sent_time is not None))",
+    ],
+    modifies=["self.bytes_in_flight", "self.congestion_window", "self.ssthresh", "self._congestion_recovery_start_time", "self._W_max", "self._starting_congestion_avoidance"],
+    ensures=[
+        "self.congestion_window >= 2 * self._max_datagram_size",
+        "implies(self.ssthresh is not None and self.congestion_window != old(self.congestion_window), self.ssthresh >= 2 * self._max_datagram_size)",
+    ],
+    loops={
+        0: dict(
+            invariant=[
+                "0 <= _i0 <= len(packets)",
+                "self.congestion_window == old(self.congestion_window)",
+                "self._max_datagram_size == old(self._max_datagram_size)",
+                "self.ssthresh == old(self.ssthresh)",
+            ],
+        )
+    },
+    prop=["C08"],
+)
